@@ -22,6 +22,8 @@ structure State where
   deq : List (Nat × Cause) := []        -- pending _dequeue tasks and what spawned them
   inflight : List Nat := []             -- attempts handed to the relay, not yet returned
   retry : List Nat := []                -- attempts that ended in a transient failure: _retry_later is due
+  retrying : List Nat := []             -- _retry_later has stored the new timestamp, the message is not released yet
+                                        -- (set_timestamp / set_recipients_delivered of a yielding storage are in between)
   rem : List Nat := []                  -- _remove_stored is due
   asleep : Option (Option Nat) := none  -- scheduler loop: none = runnable, some t = in wake.wait(t - now)
   wake : Bool := false                  -- the wake Event's flag
@@ -39,7 +41,9 @@ inductive Label
   | spurious                          -- a turn of the loop nobody asked for (e.g. resumed after a spawn on a full pool)
   | dequeue (id : Nat) (c : Cause)    -- a pending _dequeue task gets its store.get answer and goes on
   | done (id : Nat) (ok : Bool)       -- the relay returns: ok = the message leaves the queue; else transient failure
-  | retry (id : Nat) (w : Option Nat) -- _retry_later: `none` = the backoff function gave up; `some t` = the due time it chose (time of the call + its answer)
+  | retry (id : Nat) (w : Option Nat) -- _retry_later up to store.set_timestamp: `none` = the backoff function gave up; `some t` = the due time it
+                                      -- chose (time of the call + its answer), now in storage
+  | requeue (id : Nat)                -- the end of _retry_later: active_ids.discard, _add_queued((when, id))
   | remove (id : Nat)                 -- _remove_stored
   | flush
 deriving Repr, DecidableEq
@@ -116,9 +120,14 @@ def step (s : State) : Label → Option State
       match w with
       | none => some { s1 with rem := id :: s1.rem }        -- too many retries: the message leaves the queue
       | some when =>
-        let s2 := { s1 with stored := s1.stored.map (fun e => if e.1 == id then (id, when) else e),
-                            active := without s1.active id }
-        some (addQueued s2 when id)
+        some { s1 with stored := s1.stored.map (fun e => if e.1 == id then (id, when) else e), retrying := id :: s1.retrying }
+    else none
+  | .requeue id =>
+    if s.retrying.contains id then
+      match tsOf s id with
+      | some when =>
+        some (addQueued { s with retrying := without s.retrying id, active := without s.active id } when id)
+      | none => none
     else none
   | .remove id =>
     if s.rem.contains id then
